@@ -80,13 +80,13 @@ package ro
 //@   ensures [merges-the-source-first-then-the-arguments-in-order|C04,C05] trace(call.MergeAll(), call.Just(elems(obsA, obsB, obsC, obsD, obsE, obsF)), callfn.ANY(res(call.Just)))
 
 //@ func ConcatWith$1
-//@   props C04 C05 C15
+//@   props C04 C05 C15 C12
 //@   binds source obs
 //@   calls ConcatAll Just fn:t0
 //@   params source
 //@   scope obs slicelit source
 //@   track call.ConcatAll call.Just callfn.ANY
-//@   ensures [concatenates-the-source-first-then-the-arguments-in-order|C04,C05,C15] trace(call.ConcatAll(), call.Just(_), callfn.ANY(res(call.Just))) && len(arg(call.Just, 0)) == len(obs) + 1 && arg(call.Just, 0)[0] == source && forall(j, 0, len(obs), arg(call.Just, 0)[j + 1] == obs[j])
+//@   ensures [concatenates-the-source-first-then-the-arguments-in-order|C04,C05,C15,C12] trace(call.ConcatAll(), call.Just(_), callfn.ANY(res(call.Just))) && len(arg(call.Just, 0)) == len(obs) + 1 && arg(call.Just, 0)[0] == source && forall(j, 0, len(obs), arg(call.Just, 0)[j + 1] == obs[j])
 
 //@ func MergeWith$1
 //@   props C04 C05
